@@ -755,3 +755,33 @@ def inline_helpers(repo: Repo, fi: FuncInfo, depth=2, _stack=(), keep=frozenset(
 def inlined_funcinfo(repo: Repo, fi: FuncInfo, depth=2, keep=frozenset()) -> FuncInfo:
     """FuncInfo whose node is the helper-inlined copy of fi (same qual/module, for keys and locations)."""
     return FuncInfo(fi.name, fi.qual, fi.module, inline_helpers(repo, fi, depth, keep=keep), fi.cls, fi.parent_fn)
+
+
+def namedtuple_fields(repo, mod, cname):
+    """field names of a NamedTuple / dataclass-like class defined in the repo (annotation order)"""
+    ci = repo.resolve_class(cname, mod) if cname else None
+    if ci is None:
+        return None
+    if not any(b.split(".")[-1] in ("NamedTuple", "RecordClass") for b in ci.base_names) and \
+            not any("dataclass" in ast.unparse(d) for d in ci.node.decorator_list):
+        return None
+    return [st.target.id for st in ci.node.body if isinstance(st, ast.AnnAssign) and isinstance(st.target, ast.Name)]
+
+
+def as_pair(repo, mod, node):
+    """(first, second) element expressions of a 2-tuple or of a 2-field NamedTuple construction; None otherwise"""
+    if isinstance(node, ast.Tuple) and len(node.elts) == 2:
+        return node.elts[0], node.elts[1]
+    if isinstance(node, ast.Call):
+        fields = namedtuple_fields(repo, mod, ap(node.func) or "")
+        if fields and len(fields) == 2:
+            vals = {}
+            for i, a in enumerate(node.args):
+                if i < 2 and not isinstance(a, ast.Starred):
+                    vals[fields[i]] = a
+            for k in node.keywords:
+                if k.arg in fields:
+                    vals[k.arg] = k.value
+            if len(vals) == 2:
+                return vals[fields[0]], vals[fields[1]]
+    return None
